@@ -47,9 +47,10 @@ class Sym:
 
 
 class Gen:
-    def __init__(self, rng, cls='valid'):
+    def __init__(self, rng, cls='valid', sync=False):
         self.r = rng
         self.cls = cls
+        self.sync = sync          # real-time histories: server.sync() anywhere, also inside bind blocks
         self.s = Sym()
         self.ops = []
         self.tags = set()
@@ -584,6 +585,10 @@ class Gen:
                     self.emit({'op': 'bind_exit'})
                     s.depth -= 1
                 continue
+            if self.sync and k > 0.9:
+                self.emit({'op': 'sync'})
+                self.tags.add('sync-in-bind' if s.depth > 0 else 'sync')
+                continue
             if self.cls == 'misuse' and k < 0.40:
                 self.op_misuse()
                 continue
@@ -616,8 +621,8 @@ class Gen:
         return self.ops
 
 
-def gen_history(rng, cls='valid', n_ops=None):
-    g = Gen(rng, cls)
+def gen_history(rng, cls='valid', n_ops=None, sync=False):
+    g = Gen(rng, cls, sync)
     ops = g.gen(n_ops or rng.choice([4, 8, 12, 20, 30]))
     # Server.latency: the time of the bundle a bind() block sends and of release(); 0 is the NRT default
     lat = rng.choice([None, None, '0', '1/4', '1'])
